@@ -458,7 +458,7 @@ class Anchors:
             args = " ".join(f"({e[p][0]} : {sort_to_coq(s)})" for p, s in params.items())
             d = f"Definition {name} {args} : {sort_to_coq(sort)} :=\n  {code}."
             self._record(name, relpath, qualname, what, ast.unparse(node), d)
-        except (Untranslatable, IndexError, OSError, SyntaxError) as ex:
+        except Exception as ex:  # noqa  -- fail closed
             self._fail(name, relpath, qualname, what, ex)
 
     def func(self, name, relpath, qualname, params: dict, extra_env=None):
@@ -470,7 +470,7 @@ class Anchors:
                 raise Untranslatable(f"parameters changed: {got} vs {list(params)}")
             d = FuncTr(fn, params, src, extra_env).run(name)
             self._record(name, relpath, qualname, "whole function", ast.unparse(fn), d)
-        except (Untranslatable, IndexError, OSError, SyntaxError) as ex:
+        except Exception as ex:  # noqa  -- fail closed
             self._fail(name, relpath, qualname, "whole function", ex)
 
     def fact(self, name, relpath, qualname, what, fn_bool):
@@ -481,7 +481,7 @@ class Anchors:
             v = bool(fn_bool(node))
             d = f"Definition {name} : bool := {'true' if v else 'false'}."
             self._record(name, relpath, qualname, what, f"{what} = {v}", d)
-        except (Untranslatable, IndexError, OSError, SyntaxError) as ex:
+        except Exception as ex:  # noqa  -- fail closed
             self._fail(name, relpath, qualname, what, ex)
 
     def raw(self, name, relpath, qualname, what, fn_code):
@@ -491,7 +491,7 @@ class Anchors:
             node = find_def(tree, qualname) if qualname else tree
             d = fn_code(node, src)
             self._record(name, relpath, qualname, what, ast.unparse(node)[:2000], d)
-        except (Untranslatable, IndexError, OSError, SyntaxError, KeyError, AttributeError) as ex:
+        except Exception as ex:  # noqa  -- any failure to recognise the source is a broken anchor (fail closed), never a crash of the check
             self._fail(name, relpath, qualname, what, ex)
 
     def render(self, pid: str) -> str:
